@@ -7,7 +7,7 @@ another flag expression in openapi3/internalize_refs.go breaks that obligation.
 Correspondence with the Lean functions: derefSchema ↔ derefSchema/derefSchemaCells; derefHeaders ↔ derefHeaders;
 derefExamples, derefLinks ↔ addAll; derefContent ↔ derefContent/derefEnc; derefResponse(+Bodies, Responses) ↔
 derefResponses; derefParameter ↔ derefParameter; derefRequestBody ↔ the derefContent call in derefOps/topRequestBodies;
-derefPaths ↔ derefPaths/derefParams/derefOps/derefCallbacks; InternalizeRefs ↔ internalizeM/top*.
+derefPaths ↔ derefPaths/enterPI/derefParams/derefOps/derefCallbacks; InternalizeRefs ↔ internalizeM/top*.
 -/
 import KinModel.Gen.Internalized
 namespace KinModel.Gen
@@ -39,6 +39,7 @@ def modelDescent : List IRow := [
   IRow.call "derefParameter" "derefContent" "p.Content" "parentIsExternal",
   IRow.call "derefParameter" "derefSchema" "p.Schema.Value" "isExternal || parentIsExternal",
   IRow.call "derefRequestBody" "derefContent" "r.Content" "parentIsExternal",
+  IRow.call "derefPaths" "isVisitedPathItem" "ops" "",
   IRow.call "derefPaths" "addParameterToSpec" "param" "pathIsExternal",
   IRow.call "derefPaths" "derefParameter" "*param.Value" "pathIsExternal || isExternal",
   IRow.call "derefPaths" "addRequestBodyToSpec" "op.RequestBody" "pathIsExternal",
